@@ -4,13 +4,16 @@ import json, os
 ROOT = os.path.dirname(os.path.dirname(os.path.abspath(__file__)))
 ALL = ["C%02d" % i for i in range(1, 21)]
 
-CLAIMED = {
- "C19": dict(
-   text="Machine-checked Coq theorems, for every 64-bit input: IntegerSquareroot = floor sqrt (Newton iteration, fuel and overflow discharged); IsPowerOfTwo iff 2^k; NextPowerOfTwo = 2^log2_up (bit-smearing lemma) or 0 when unrepresentable; EpochStartSlot/TimeAtSlot return the exact value iff representable else the error; CheckSlotSpan, CommitteeCount, churn, activation-exit epoch equal the spec formula; VerifyMerkleBranch = is_valid_merkle_branch for any hash function. The hand-written Impl model is tied to /repo on every run by differential execution of Go vs model (vm_compute) on the boundary set and random inputs; a Go/Spec disagreement is reported with the input.",
-   note="Trusted: Coq kernel+VM, the Go harness/driver, the hand-written model (tied by execution, not translation), hash as a Section variable. No axioms (Print Assumptions: closed). Zero divisors in the config are outside the domain.",
-   technique="Coq proof (induction/arith/bit lemmas) + Go-vs-model differential correspondence",
-   design="4/C19"),
-}
+import importlib, sys
+sys.path.insert(0, os.path.join(ROOT, "lib"))
+CLAIMED = {}
+for pid in ALL:
+    try:
+        mod = importlib.import_module("checks." + pid.lower())
+    except ModuleNotFoundError:
+        continue
+    if getattr(mod, "MANIFEST", None):
+        CLAIMED[pid] = mod.MANIFEST
 PENDING_REASON = "not claimed yet: the Coq model and its correspondence harness for this property are still being built (see DESIGN.md section 4); it is applicable and will be claimed when its check exists"
 
 def main():
